@@ -3,6 +3,7 @@ import Tally.Spec.C13
 import TallyProofs.Props.C12
 import TallyProofs.Lemmas.M3Report
 import TallyProofs.Lemmas.M3Buckets
+import TallyProofs.Lemmas.DigitsLex
 import TallyProofs.Lemmas.M3Pool
 /-!
 # C13 — M3 delivers every reported value exactly once and intact
@@ -23,6 +24,9 @@ the tag-cache hash is an arbitrary function.
 * `common_tags_everywhere` — every datagram carries exactly the configured common tags;
 * `bucket_ids_increase` — the bucket ids of a histogram read back as 0, 1, 2, … in bound order, all
   of the same width, and the bounds are sorted;
+* `bucket_ids_lex_increase` — … and the ids increase with the position *as byte strings*
+  (lexicographic order on `List UInt8`), which is what a backend sorting by the id tag relies on;
+  `legacy_id_width_counterexample` — not so when the width is computed from `Len() - 1`;
 * `timestamp_bracket`, `timestamps_monotone` — every timestamp is the clock cell's content at the
   report step: not earlier than construction, not later than the cell at any later time, never
   decreasing along the queue;
@@ -269,6 +273,79 @@ theorem bucket_ids_increase (cfg : Config) (charge : Proto → Metric → Metric
       show (bucketHandles cfg charge name mtags (.values l)).map (·.upperV) = _
       rw [bucketHandles_upperV, bucketRows_values]
     exact ⟨this ▸ valueUppers_sorted l hmax, this⟩
+
+/-- the id tag of the bucket at position `i` is the zero-padded `i` -/
+theorem bucketHandles_idValue (cfg : Config) (charge : Proto → Metric → MetricTag → MetricTag → Nat)
+    (name : Bytes) (mtags : List MetricTag) (spec : BucketSpec) (i : Nat)
+    (h : i < (bucketHandles cfg charge name mtags spec).length) :
+    (bucketHandles cfg charge name mtags spec)[i].idTag.value = bucketIdString (idWidth spec.len) i := by
+  have hids := bucketHandles_ids cfg charge name mtags spec
+  have h1 : ((bucketHandles cfg charge name mtags spec).map (·.idTag.value))[i]'(by simpa using h)
+      = (bucketHandles cfg charge name mtags spec)[i].idTag.value := by simp
+  rw [← h1]
+  have h2 : i < (List.range (bucketRows cfg.prec spec).length).length := by
+    rw [List.length_range, ← bucketHandles_length cfg charge name mtags spec]; exact h
+  have : ((bucketHandles cfg charge name mtags spec).map (·.idTag.value))[i]'(by simpa using h)
+      = ((List.range (bucketRows cfg.prec spec).length).map (bucketIdString (idWidth spec.len)))[i]'(by simpa using h2) := by
+    simp only [hids]
+  rw [this]
+  simp
+
+/-- the bucket ids of an allocated histogram increase with the position **as byte strings**: for all
+positions `i < j` the id tag value of bucket `i` is smaller than that of bucket `j` in the
+lexicographic order on `List UInt8` — what a backend that sorts by the id tag relies on.  (All ids
+have the width `idWidth spec.len`, are made of digits, and read back as their position.) -/
+theorem bucket_ids_lex_increase (cfg : Config) (charge : Proto → Metric → MetricTag → MetricTag → Nat)
+    (name : Bytes) (mtags : List MetricTag) (spec : BucketSpec) :
+    let bs := bucketHandles cfg charge name mtags spec
+    ∀ i j (hij : i < j) (hj : j < bs.length),
+      (bs[i]'(Nat.lt_trans hij hj)).idTag.value < bs[j].idTag.value := by
+  intro bs i j hij hj
+  have hi : i < bs.length := Nat.lt_trans hij hj
+  have hlen : bs.length = spec.len + 1 := by
+    show (bucketHandles cfg charge name mtags spec).length = _
+    rw [bucketHandles_length, bucketRows_length]
+  have hvi : bs[i].idTag.value = bucketIdString (idWidth spec.len) i :=
+    bucketHandles_idValue cfg charge name mtags spec i hi
+  have hvj : bs[j].idTag.value = bucketIdString (idWidth spec.len) j :=
+    bucketHandles_idValue cfg charge name mtags spec j hj
+  have pi := bucketIdString_parse spec.len i (by omega)
+  have pj := bucketIdString_parse spec.len j (by omega)
+  show bs[i].idTag.value < bs[j].idTag.value
+  rw [hvi, hvj]
+  exact Lemmas.DigitsLex.lex_lt_of_parseDigits_lt _ _ (by rw [pi.2, pj.2])
+    (Lemmas.DigitsLex.bucketIdString_all_digit _ i) (Lemmas.DigitsLex.bucketIdString_all_digit _ j)
+    i j pi.1 pj.1 hij
+
+/-- non-vacuity: a duration histogram with the two bounds `{5ns, 1ns}` has three buckets, whose ids
+`"0000"`, `"0001"`, `"0002"` are three increasing byte strings (the instance `i = 0`, `j = 2` of
+`bucket_ids_lex_increase` is spelled out) -/
+example :
+    let bs := bucketHandles { proto := .compact, maxPacket := 150, commonTags := [], bucketIdName := [105],
+                              bucketName := [98], prec := 1, internalTags := [] }
+      (fun _ _ _ _ => 0) [104] [] (.durations [5, 1])
+    bs.length = 3 ∧ bs.map (·.idTag.value) = [[48, 48, 48, 48], [48, 48, 48, 49], [48, 48, 48, 50]] ∧
+    (∀ (h : 2 < bs.length), (bs[0]'(by omega)).idTag.value < bs[2].idTag.value) ∧
+    ([48, 48, 48, 48] : Bytes) < [48, 48, 48, 49] ∧ ([48, 48, 48, 49] : Bytes) < [48, 48, 48, 50] := by
+  intro bs
+  refine ⟨(bucket_ids_increase _ _ _ _ _).1, ?_, fun h => bucket_ids_lex_increase _ _ _ _ _ 0 2 (by decide) h,
+    by decide, by decide⟩
+  show (bucketHandles _ _ _ _ _).map (·.idTag.value) = _
+  rw [bucketHandles_ids, bucketRows_length]
+  decide
+
+/-- the pinned width `max(ndigits(Len() - 1), 4)`: a histogram with 10000 bounds has 10001 buckets,
+positions 0 … 10000, but the width is computed from 9999 — four digits.  The last id, `"10000"`, is
+one byte longer than the others, and as a byte string it sorts before `"9999"` (and before `"1001"`),
+so the ids neither have one length nor increase with the position. -/
+theorem legacy_id_width_counterexample :
+    max (ndigits (10000 - 1)) 4 = 4 ∧ idWidth 10000 = 5 ∧
+    (bucketIdString (max (ndigits (10000 - 1)) 4) 10000).length
+      ≠ (bucketIdString (max (ndigits (10000 - 1)) 4) 0).length ∧
+    ¬ bucketIdString (max (ndigits (10000 - 1)) 4) 9999 < bucketIdString (max (ndigits (10000 - 1)) 4) 10000 ∧
+    bucketIdString (max (ndigits (10000 - 1)) 4) 10000 < bucketIdString (max (ndigits (10000 - 1)) 4) 9999 ∧
+    bucketIdString (idWidth 10000) 9999 < bucketIdString (idWidth 10000) 10000 := by
+  refine ⟨by decide, by decide, by decide, by decide, by decide, by decide⟩
 
 /-! ### timestamps -/
 
